@@ -620,17 +620,36 @@ def suffix_specs(chk, fx):
 
 
 def _compare(chk, rule, f, at, ev, want, exits_only_extra=False):
+    """Compare the events of a recognised loop with its role template.
+    A template event that is present: obligation discharged. Missing, but an event of the same kind shares its text or
+    one of its guards: the shape is recognised and an operand differs -> violation naming the role. Missing with
+    nothing similar: the loop has another shape -> cannot analyse (exit 2), never a verdict."""
     got = set((k, t, tuple(sorted(g))) for k, t, g in ev)
     want = {(k, t, tuple(sorted(g))): why for (k, t, g), why in want.items()}
+    unknown_shape = []
+    n_missing = 0
     for w, why in want.items():
         if w in got:
             chk.ok(rule, A.site(f, at), why)
-        else:
-            near = [e for e in got if e[0] == w[0] and (e[1] == w[1] or e[2] == w[2])]
-            chk.violation(rule, A.site(f, at), "%s:%s:%s" % (rule, f.o["n"], why.split(" ")[1] if " " in why else why),
-                          "expected: %s — i.e. %s %s when %s; found instead: %s" % (
-                              why, w[0], _short(w[1]), [_short(x) for x in w[2]],
-                              [(e[0], _short(e[1]), [_short(x) for x in e[2]]) for e in near][:2]))
+            continue
+        n_missing += 1
+        near = [e for e in got - set(want) if e[0] == w[0] and ((w[1] and e[1] == w[1]) or (set(e[2]) & set(w[2])) or
+                                                                   (w[1] and e[1].split("(")[0] == w[1].split("(")[0] and
+                                                                    e[2] == w[2]))]
+        if not near:
+            unknown_shape.append(why)
+            continue
+        chk.violation(rule, A.site(f, at), "%s:%s:%s" % (rule, f.o["n"], "-".join(why.split(" ")[1:4])),
+                      "expected: %s — i.e. %s %s when %s; found instead: %s" % (
+                          why, w[0], _short(w[1]), [_short(x) for x in w[2]],
+                          [(e[0], _short(e[1]), [_short(x) for x in e[2]]) for e in near][:2]))
+    if unknown_shape:
+        if chk.violations:
+            return
+        raise AnalysisIncomplete("%s: %s has a shape the template does not recognise (no counterpart for: %s)" % (
+            rule, f.o["n"], "; ".join(unknown_shape)[:300]))
+    if n_missing:
+        return
     for e in got - set(want):
         if e[0] in ("break", "continue", "return"):
             chk.violation(rule, A.site(f, at), "%s:%s:extra-%s" % (rule, f.o["n"], e[0]),
